@@ -287,7 +287,8 @@ theorem sysInv_step (c : Cfg F G) (ephs : List (List F)) (hw : WellFormed c ephs
           obtain ⟨mj', stj, spj, sdj, srj, hmj', hinvj, _⟩ := hs.2 j hjn
           rw [hmj] at hmj'; injection hmj' with hmj'; subst hmj'
           have hxe := (local_sent c ephs j mj stj spj sdj srj hinvj).1 x hx
-          have hstamp : ({ index := x.index, key := x.key, sender := j } : PkMsg G) = x := by rw [hxe]; rfl
+          have hstamp : (fun m : Member F G => m.loopPk c.g j x) = (fun m => m.recvPk c.g x) := by
+            funext m; rw [hxe]; rfl
           rw [hstamp]
           show SysInv c ephs (s.upd (Ev.pk j i).target (fun m => m.recvPk c.g x) (Ev.pk j i))
           apply sysInv_upd c ephs s hs
